@@ -6,6 +6,7 @@ from __future__ import annotations
 import datetime as dt
 import json
 
+import copy
 import edzed
 from edzed.blocklib import timeinterval as ti
 
@@ -50,6 +51,16 @@ def as_list_or_none(kind, inp, via_parse=False):
         return None
 
 
+def scribble(x):
+    """overwrite every number of a nested list in place"""
+    if isinstance(x, list):
+        for i, v in enumerate(x):
+            if isinstance(v, list):
+                scribble(v)
+            elif isinstance(v, int):
+                x[i] = 1 if v != 1 else 2
+
+
 def to_obj(kind, ep):
     if kind == 'time':
         return dt.time(*ep)
@@ -79,8 +90,16 @@ class C13(common.Spec):
                 o['exc'] = 'OTHER:' + type(err).__name__
                 out.append(o)
                 continue
-            o['result'] = iv.as_list()
-            o['via_parse'] = as_list_or_none(kind, inp, via_parse=True)
+            first = iv.as_list()
+            o['result'] = copy.deepcopy(first)
+            # the numeric form belongs to the caller: editing it in place (say, to derive a shifted
+            # interval) must not change the interval nor anything computed later
+            scribble(first)
+            if iv.as_list() != o['result']:
+                o['exc'] = 'OTHER:the numeric form returned by as_list() is shared with the interval'
+            vp = as_list_or_none(kind, inp, via_parse=True)
+            o['via_parse'] = copy.deepcopy(vp)
+            scribble(vp)
             o['string'] = iv.as_string()
             o['relist'] = as_list_or_none(kind, o['result'])
             o['restr'] = as_list_or_none(kind, o['string'])
